@@ -63,9 +63,17 @@ def build(kind, wd, rng=None):
     return m.to(wd).eval(), shape
 
 
-def batch(rng, shape, wd, mag=None):
+def batch(rng, shape, wd, mag=None, layouts=True):
+    """A random batch; one time in four its memory layout is what real pipelines hand to a model (the result of a
+    transpose, a channels_last image batch) - same values, other strides."""
     mag = float(np.exp(rng.uniform(np.log(0.1), np.log(10)))) if mag is None else mag
-    return (torch.from_numpy(rng.standard_normal(shape)) * mag).to(wd)
+    x = (torch.from_numpy(rng.standard_normal(shape)) * mag).to(wd)
+    c = rng.random() if layouts else 1.0
+    if c < 0.15 and x.ndim >= 2:
+        x = x.transpose(0, -1).contiguous().transpose(0, -1)
+    elif c < 0.25 and x.ndim == 4:
+        x = x.contiguous(memory_format=torch.channels_last)
+    return x
 
 
 def crash_hazard(kind, wd, wq, aq):
